@@ -14,7 +14,7 @@ import tempfile
 import corpus
 from run import Broken, Violation, VERIF, REPO
 
-GEN = ["Effects", "ModState", "Ambient", "Observers", "ModCells", "ValueKinds"]
+GEN = ["Effects", "ModState", "Ambient", "Observers", "ModCells", "ValueKinds", "Sched"]
 RULE = ("cases = (fixture or generated document x hash seed) digests in fresh interpreters + (result x random observer "
         "sequence) + (payload stream x random op sequence vs the Lean stream model) + repeat/in-place checks (all framing "
         "variants: bytes in front of / behind the document) with a frame check of every process-global cell + (document x "
@@ -36,6 +36,8 @@ RULE = ("cases = (fixture or generated document x hash seed) digests in fresh in
         "distinct = distinct (input, seed) / (input, sequence) pairs; non-trivial = result has units/images/tables or "
         "the sequence contains at least two different observers")
 ASSUMPTIONS = [
+    "thread-schedule dependence is searched by repeating the extraction of many-member archives under different interpreter switch intervals with a competing thread (probabilistic; needs >= 2 CPUs); the closed world is the concurrency inventory of tools/gen/sched.py (names resolved through imports; a pool obtained from a third-party helper is not seen)",
+    "interpreter-wide settings: probes exist for the recursion limit only (documents nested 1500 … 24000 deep); other settings are covered by the source inventory and the interpreter-cell frame",
     "third-party parsers are deterministic (only sampled: digests across PYTHONHASHSEED values and fresh processes)",
     "the AST inventories of tools/gen/effects.py find every set-to-ordered conversion, observer-side write, input-stream method and id()/hash() use (local type inference for sets)",
     "io.BytesIO semantics as modelled in S2T/Model/Observe.lean and S2T/Model/InputStream.lean (tied by correspondence on real streams)",
@@ -48,7 +50,7 @@ ASSUMPTIONS = [
     "tools/gen/valuekinds.py: the kinds of cell values a load_workbook call site hands out are those the installed openpyxl hands out for the probe workbook under the flags written at the site (read through iter_rows(values_only=True)); flags that are not literals are a translator note",
     "one image object (or a unit's view of it) asked twice for its bytes hands out the same rewound stream (S2T.Observe.getBytes): consuming an earlier handed-out stream after asking again is the caller's aliasing, not judged",
 ]
-TRUSTED = ["tools/gen/effects.py, tools/gen/modstate.py, tools/gen/ambient.py, tools/gen/observers.py (AST inventories)", "harness/workers/c06_state.py (cell fingerprints)",
+TRUSTED = ["tools/gen/effects.py, tools/gen/modstate.py, tools/gen/ambient.py, tools/gen/observers.py, tools/gen/sched.py (AST inventories)", "harness/workers/c06_state.py (cell fingerprints)",
            "harness/workers/c06_clock.py (faked wall clock)", "harness/props/c06_observe.py (accessor introspection, rendering)"]
 
 OBS = ["full_text", "units", "images", "tables", "metadata", "to_json"]
@@ -880,9 +882,85 @@ def _generated_docs(ctx):
     return out
 
 
+def _fault_docs(ctx):
+    """FAULT-POINT family (builders/c06_sched.py): documents that make an extraction fail at graded depths of the walk,
+    followed by probes whose outcome depends on an interpreter-wide setting (faults first: the forward order of the
+    history check extracts every probe after every failed extraction, the reverse order every probe before them)"""
+    from builders import c06_sched
+    docs = c06_sched.fault_docs() + c06_sched.probe_docs()
+    for n, d in docs:
+        _DATA[n] = d
+    return docs
+
+
+def _sched_docs(ctx):
+    """SCHEDULE family: containers with many members of mixed cost"""
+    from builders import c06_sched
+    docs = c06_sched.archives(ctx.rng)
+    for n, d in docs:
+        _DATA[n] = d
+    return docs
+
+
+SWITCH_INTERVALS = (0.005, 1e-6, 0.05, 1e-5)
+
+
+def _extract_outcome(name, data):
+    from sharepoint2text.parsing import router
+    try:
+        fn = router.get_extractor(name)
+        return [_full_json(r) for r in fn(io.BytesIO(data), name)]
+    except corpus.family() as e:
+        return "ERR:" + type(e).__name__
+
+
+def _busy(stop):
+    while not stop.is_set():
+        sum(range(200))
+
+
+def _schedule_repeat(ctx, docs, runs):
+    """(document x thread schedule): the same bytes / path extracted `runs` times in this process, each time under another
+    interpreter switch interval (the one knob of the thread scheduler a Python program has) and with a competing busy
+    thread on every second run: every run must yield the same SEQUENCE of results."""
+    import threading
+    broken = []
+    old = sys.getswitchinterval()
+    try:
+        for name, data in docs:
+            outs = []
+            for k in range(runs):
+                sys.setswitchinterval(SWITCH_INTERVALS[k % len(SWITCH_INTERVALS)])
+                stop = threading.Event()
+                th = None
+                if k % 2:
+                    th = threading.Thread(target=_busy, args=(stop,), daemon=True)
+                    th.start()
+                try:
+                    outs.append(_extract_outcome(name, data))
+                finally:
+                    stop.set()
+                    if th is not None:
+                        th.join()
+            n_results = len(outs[0]) if isinstance(outs[0], list) else 0
+            ctx.case(("sched-repeat", name, runs), nontrivial=n_results >= 1)
+            ctx.count("sched-repeat/" + ("multi-result" if n_results >= 8 else "few-results"))
+            k = next((i for i in range(1, runs) if outs[i] != outs[0]), None)
+            if k is not None:
+                how = ""
+                if isinstance(outs[0], list) and isinstance(outs[k], list) and sorted(outs[0]) == sorted(outs[k]):
+                    how = f": the same {len(outs[0])} results in another ORDER (first moved result at position {next(i for i, (a, b) in enumerate(zip(outs[0], outs[k])) if a != b)})"
+                ref = _doc_ref(name, data)
+                broken.append(Broken("correspondence", "c06.schedule", f"{name}: extraction {k + 1} of {runs} of the same bytes / path in one process differs from the first" + how,
+                                     case={"kind": "schedrepeat", "fixture": name, "runs": max(runs, 12), **({"data_b64": ref["data_b64"]} if "data_b64" in ref else {})}))
+    finally:
+        sys.setswitchinterval(old)
+    return broken
+
+
 def _history_set(ctx, fx, pairs, framed):
     """documents for the history check: every declare/use pair (A directly before B), small fixtures, some framing variants"""
-    docs = []
+    docs = _fault_docs(ctx)
     for tag, a, b in pairs:
         docs += [a, b]
     small = [(n, d) for n, d in fx if len(d) < (1_000_000 if ctx.thorough else 150_000) and "password" not in n and corpus.file_type_of(n)]
@@ -912,6 +990,11 @@ def correspondence(ctx):
     ctx.count("variants/encodings", len(encv))
     ctx.count("variants/cell-kinds", len(kinds))
     variants += encv + kinds
+    faults = _fault_docs(ctx)
+    sched = _sched_docs(ctx)
+    ctx.count("variants/fault-points", len(faults))
+    ctx.count("variants/many-member-archives", len(sched))
+    variants += sched
     for n, d in variants + framed + pair_docs:      # every generated document can be put into a replay file by content
         _DATA[n] = d
     for tag, a, b in pairs[:3]:
@@ -927,7 +1010,8 @@ def correspondence(ctx):
                 fh.write(b)
             fx_paths.append((name, p))
         broken += _hash_seeds(ctx, fx_paths)
-    broken += _repeat_and_input(ctx, fx + variants, must=framed + pair_docs + opc + members + encv + kinds)
+    broken += _repeat_and_input(ctx, fx + variants, must=framed + pair_docs + opc + members + encv + kinds + (faults + sched if ctx.thorough else []))
+    broken += _schedule_repeat(ctx, sched, ctx.n(5, 12))
     broken += _history(ctx, _history_set(ctx, fx, pairs, framed) + (opc if ctx.thorough else ctx.rng.sample(opc, min(6, len(opc)))) + encv + kinds)
     broken += _observer_sequences(ctx, fx + variants)
     broken += _observer_arg_sequences(ctx, fx + variants, must=decks)
@@ -942,7 +1026,7 @@ def correspondence(ctx):
 def _violation_of(b):
     c = dict(b.case or {})
     kind = c.get("kind")
-    if kind in ("seed", "repeat", "observe"):
+    if kind in ("seed", "repeat", "observe", "schedrepeat"):
         if ("~" in c.get("fixture", "") or c.get("fixture", "").startswith("generated/")) and c["fixture"] in _DATA and "data_b64" not in c:
             c["data_b64"] = base64.b64encode(_DATA[c["fixture"]]).decode()
         return Violation(b.name.replace("c06.", "") + ":" + os.path.basename(c.get("fixture", "?")), b.detail, c)
@@ -996,7 +1080,9 @@ def search(ctx, broken):
     kinds = _cell_kind_docs(sub)
     for n, d in framed + pair_docs + opc + decks + members + encv + kinds:
         _DATA[n] = d
-    found = _repeat_and_input(sub, [], must=framed + pair_docs + opc + members + encv + kinds)
+    sched = _sched_docs(sub)
+    found = _schedule_repeat(sub, sched, 12)
+    found += _repeat_and_input(sub, [], must=framed + pair_docs + opc + members + encv + kinds + _fault_docs(sub) + sched)
     found = [b for b in found if (b.case or {}).get("kind") != "modstate"]
     if not found:
         # observer-side obligations (effects inventory, accessor inventory, instance caches) are decided by call sequences
@@ -1080,6 +1166,9 @@ def replay(ctx, payload):
                 if _full_json(r) != base:
                     return False, f"to_json changed after {ob}"
         return True, "observation leaves the result unchanged"
+    if c.get("kind") == "schedrepeat":
+        b = _schedule_repeat(type(ctx)(ctx.prop, "thorough", ctx.seed), [(c["fixture"], fx[c["fixture"]])], min(int(c.get("runs", 12)), 40))
+        return (not b), "; ".join(x.detail for x in b) or f"{c.get('runs', 12)} extractions under different thread schedules yield the same sequence of results"
     if c.get("kind") == "repeat":
         b = _repeat_and_input(type(ctx)(ctx.prop, "thorough", ctx.seed), [(c["fixture"], fx[c["fixture"]])])
         b = [x for x in b if x.name != "c06.modstate"]      # a frame obligation, not the property statement
